@@ -252,11 +252,11 @@ func init() {
 	register(&Property{
 		ID: "C23",
 		Explanation: "Decides structural necessary conditions of 'the language server stays consistent': UNITS(utf16): every outbound Position.Character is a sum of constants and results of the audited UTF-16 converter (two units above U+FFFF); the inbound conversion consumes two units for such runes and rejects positions between them. IDXGUARD: constant-index reads of client-supplied arrays are dominated by a length test. " +
-			"SEQ: package ls starts no goroutine; DidOpen/DidChange store the document before type-checking and publish the request's version; startLS serves the connection through protocol.Handlers(protocol.ServerHandler(…)). RANGE(single-line): the end of a diagnostic range is Offset + length of the error text up to its first newline. " +
+			"SEQ: package ls starts no goroutine; DidOpen/DidChange store the document before type-checking and publish the request's version; startLS serves the connection through protocol.Handlers(protocol.ServerHandler(…)). RANGE(single-line): the end of a diagnostic range is Offset + length of the error text up to its first newline. No-crash clause (a panic on the handler goroutine takes the server down): CURSOR: the grammar lexer the server runs on every keystroke never reads l.source past its end; SENTINEL(allTokensMarker): the verbose conflict explanations the server asks for (Params{CheckOnly, Verbose}) never index the goto tables with the all-tokens sentinel. " +
 			"Not decided: the jsonrpc2 transport, that definition results are the right identifiers.",
-		Rules:       []string{"UNITS(utf16)", "IDXGUARD", "SEQ", "RANGE(single-line)"},
+		Rules:       []string{"UNITS(utf16)", "IDXGUARD", "SEQ", "RANGE(single-line)", "CURSOR", "SENTINEL(allTokensMarker)"},
 		Assumptions: []string{"go.lsp.dev/protocol.Handlers + ServerHandler reply only after the handler method returned (read in the vendored sources)"},
-		Run:         func(c *Ctx) { ruleLS(c) },
+		Run:         func(c *Ctx) { ruleLS(c); ruleCURSOR(c); ruleSENTINELIDX(c) },
 	})
 }
 
@@ -425,8 +425,8 @@ func init() {
 		ID: "C28",
 		Explanation: "Decides structural necessary conditions of 'symbol names map to valid, distinct identifiers': REGISTER: every site in package compiler that creates a grammar.Symbol with an identifier looks it up in resolver.ids, raises the 'get the same ID' error under exactly the outcome 'already taken' (no further condition), and registers the same identifier (audited exception: mid-rule nonterminals). " +
 			"GUARD(leading-digit): ident.Produce inserts the underscore for a leading digit based on what has been written so far (buf.Len() == 0 inside the rune loop). Not decided: non-emptiness and validity of Produce's output in general (string computation).",
-		Rules: []string{"REGISTER", "GUARD(leading-digit)"},
-		Run:   func(c *Ctx) { ruleREGISTER(c); ruleLEADINGDIGIT(c) },
+		Rules: []string{"REGISTER", "GUARD(leading-digit)", "GUARD(explicit-id)"},
+		Run:   func(c *Ctx) { ruleREGISTER(c); ruleLEADINGDIGIT(c); ruleEXPLICITID(c) },
 	})
 }
 
